@@ -286,6 +286,10 @@ def run_shard(ctx):
         elif i % 10 == 7:
             text, ordered, feats = fedgen.star_query(r), False, {'star-over-nested'}
             acc.count('star_shapes')
+        elif i % 10 == 6:
+            text, ops = selgen.setop_chain(r, fedgen.qual_multi)
+            ordered, feats = False, {'setop-chain'} | {'setop:' + o for o in ops}
+            acc.count('setop_chain_shapes')
         elif i % 10 == 2:
             # set operation across integrations with trailing ORDER BY .. LIMIT (clauses of the whole set operation)
             text, trailing_model, op = selgen.setop_trailing(r, fedgen.qual_multi)
